@@ -343,7 +343,7 @@ func iterates(m map[string]int) []string {
 
 func ruleC06(c *Ctx, r *Report) {
 	an := c.anchors()
-	if !requireAnchors(r, an, "C06-anchor") {
+	if !requireAnchors(r, an, "C06-anchor", "redact", "stream") {
 		return
 	}
 	p := c.prov()
@@ -899,6 +899,8 @@ func c06Funnel(c *Ctx, r *Report, an *Anchors) {
 	if len(streamCalls) < 3 {
 		r.Bad("C06-R3", sf.Name()+":channels", c.Pos(sf.Pos()), fmt.Sprintf("only %d call(s) of the scan loop (plain file, gzip file and reader channels expected)", len(streamCalls)))
 	}
+
+	gzipReaderRule(c, r, sf, "C06-R3")
 
 	// (b) every success return of a wrapper is the scan loop's result
 	var wl []*ssa.Function
@@ -1526,4 +1528,59 @@ func parserStrictRule(c *Ctx, r *Report, rule string) {
 	r.Check(len(ends) == 0, rule, un.Name()+":nothing-after-the-object", c.InstrPos(pvCall),
 		"every success return of the entry point has checked (decoder Token/More with an error branch) that nothing follows the top-level value",
 		fmt.Sprintf("the entry point reports success at %v without checking what follows the first JSON value: a line that is not JSON (object followed by text or by a second object) still produces a record", where))
+}
+
+// gzipReaderRule (C06-R3 / C16-R6): see the comment in the body.
+func gzipReaderRule(c *Ctx, r *Report, sf *ssa.Function, rule string) {
+	// (a2) a gzip reader is only handed to the scan loop and closed: no reconfiguration
+	// (Multistream(false) stops after the first member of a concatenated archive), no
+	// reads outside the loop
+	seenCaller := map[*ssa.Function]bool{}
+	for _, call := range c.callersOf(sf) {
+		caller := call.Parent()
+		if seenCaller[caller] {
+			continue
+		}
+		seenCaller[caller] = true
+		for _, gz := range callsIn(caller, func(k string, _ *ssa.Call) bool { return k == "compress/gzip.NewReader" }) {
+			rd := extractOf(gz, 0)
+			if rd == nil {
+				continue
+			}
+			var bad []string
+			n := 0
+			var visit func(v ssa.Value, depth int)
+			visit = func(v ssa.Value, depth int) {
+				for _, use := range referrers(v) {
+					n++
+					switch x := use.(type) {
+					case *ssa.DebugRef:
+					case *ssa.MakeInterface, *ssa.ChangeInterface:
+						if depth < 3 {
+							visit(x.(ssa.Value), depth+1)
+						}
+					case *ssa.BinOp:
+						if _, _, ok := nilCompare(x); !ok {
+							bad = append(bad, "used in "+x.String())
+						}
+					case ssa.CallInstruction:
+						cc := x.Common()
+						k := calleeKey(cc)
+						if cc.StaticCallee() == sf || k == "(*compress/gzip.Reader).Close" {
+							continue
+						}
+						bad = append(bad, shortKey(k)+" at "+c.InstrPos(use))
+					default:
+						bad = append(bad, fmt.Sprintf("%T at %s", use, c.InstrPos(use)))
+					}
+				}
+			}
+			visit(rd, 0)
+			sort.Strings(bad)
+			r.Check(len(bad) == 0, rule, caller.Name()+":gzip-reader-uses", c.InstrPos(gz),
+				fmt.Sprintf("the gzip reader is only handed to the scan loop and closed (%d uses): every member of the archive is streamed, as the plain file would be", n),
+				"the gzip reader is reconfigured or consumed outside the scan loop, so a .gz input no longer yields what the same text yields as a plain file: "+strings.Join(bad, "; "))
+		}
+	}
+
 }
